@@ -28,6 +28,13 @@ EMBEDDINGS = [
     (25000.0, 12.5, 0.004),
 ]
 
+# extreme price scales (micro-priced and very expensive symbols): every session-based check also runs a reduced part of its
+# space on these, whatever the seed, so that an absolute tolerance or a magnitude-dependent branch cannot hide
+SCALES = [
+    (1.23e-06, 1e-08, 1e5),
+    (1.5e6, 250.0, 1e-4),
+]
+
 
 class HarnessError(Exception):
     pass
